@@ -4,7 +4,10 @@ spec      : spec/Lro.tla.  Part (a) generation-time resolution of operation_info
             against the METHOD's package, rejection of empty type names, plain methods without the annotation);
             part (b) the run-time protocol Start -> Wrap -> Poll* -> Resolve | Fail over operation histories
             NotDone^k . Done(response | error), for request fields named like the api-core modules (`operation`,
-            `operation_async`) passed in a request object or flattened.  Eleven spec mutants (`Mutant`) must be rejected by TLC.
+            `operation_async`) passed in a request object or flattened.  Two client instances with their
+            own channels / servers live in every driver process (a poll must go out on the channel its Start went out
+            on); relative names may have a namesake in an enclosing package (the method's package wins).
+            Thirteen spec mutants (`Mutant`) must be rejected by TLC.
 spec->code: TLC emits every resolution case (Lro.emit.res/all.cfg) and every history for carrier cases
             (Lro.emit.run.cfg) with the predicted observables.  Each resolution case is concretised (absapi), run
             through the REAL generator with the /repo hooks on (Method event: resolved type names; or the raised
@@ -33,14 +36,15 @@ MSGS = {
     'RunMetadata': [dict(name='p', type='int32')],
 }
 DECOY = [dict(name='decoy')]
-MUTANTS = ['lose_argument', 'single_pass', 'prefix_qualified', 'decoy_package', 'accept_empty', 'sync_future', 'poll_when_done',
+NON_TARGET = ('dep', 'anc')
+MUTANTS = ['lose_argument', 'outermost_first', 'shared_operations_client', 'single_pass', 'prefix_qualified', 'decoy_package', 'accept_empty', 'sync_future', 'poll_when_done',
            'fresh_channel', 'wrong_name', 'drop_metadata_type', 'swallow_error']
 EVENT_FIELDS = dict(ev='', kind='', resp='', meta='', err='', rpc='', chan=0, name='', future='', type='', value=0,
                     mtype='', mvalue=0, code=0)
 
 
 def file_name(fid):
-    return 'other/dep/v1/dep.proto' if fid == 'dep' else f'acme/lr/v1/{fid}.proto'
+    return {'dep': 'other/dep/v1/dep.proto', 'anc': 'acme/anc.proto'}.get(fid, f'acme/lr/v1/{fid}.proto')
 
 
 def concretise(case, experimental=False):
@@ -51,8 +55,10 @@ def concretise(case, experimental=False):
             continue            # google/protobuf/empty.proto: the installed descriptor (absapi std deps)
         fd = dict(name=file_name(f['id']), package=f['pkg'], target=bool(f['target']),
                   imports=[file_name(i) for i in f['imports'] if i != 'empty'],
-                  messages=[dict(name=m, fields=DECOY if f['id'] == 'dep' else
+                  messages=[dict(name=m, fields=DECOY if f['id'] in NON_TARGET else
                                  [dict(name=case['fld'])] if m == 'Req' else MSGS[m]) for m in f['msgs']])
+        if f['id'] in NON_TARGET:
+            fd['std_deps'] = []     # same-named messages in a foreign (dep) / an ENCLOSING (anc) package
         if f['id'] == 'lr':
             m = dict(name='Run', **{'in': 'Req', 'out': case['outType'] if case['out'] == 'op' else 'Thing'},
                      http=[dict(verb='post', uri='/v1/{%s=things/*}:run' % case['fld'], body='*')])
@@ -70,12 +76,14 @@ def concretise(case, experimental=False):
 
 
 def res_key(c):
-    return (f"ann={int(c['ann'])}/out={c['out']}/resp={c['rsp']['kind']}:{c['rsp']['site']}"
-            f"/meta={c['mta']['kind']}:{c['mta']['site']}" + (f"/field={c['fld']}" if c['fld'] != 'name' else ''))
+    def ref(r):
+        return f"{r['kind']}:{r['site']}" + ('+encl' if r['encl'] else '')
+    return (f"ann={int(c['ann'])}/out={c['out']}/resp={ref(c['rsp'])}/meta={ref(c['mta'])}"
+            + (f"/field={c['fld']}" if c['fld'] != 'name' else ''))
 
 
 def run_key(c, transport):
-    return f"{res_key(c)}{'/flattened' if c['form'] == 'flattened' else ''}/{c['mode']}/{transport}/k={c['k']}/{c['outcome']}/v={c['value']}/code={c['code']}"
+    return f"{res_key(c)}{'/flattened' if c['form'] == 'flattened' else ''}{'/inst=2' if c['inst'] == 2 else ''}/{c['mode']}/{transport}/k={c['k']}/{c['outcome']}/v={c['value']}/code={c['code']}"
 
 
 def _init_worker():
@@ -108,6 +116,10 @@ def run_group(job):
         if not runs:
             return obs
         root = gen.materialise(res, os.path.join(work, 'out'))
+        from ..pipeline import write_pb2
+        for fdp in req.proto_file:      # protoc-style modules for the non-target API files, so that an emitted
+            if fdp.name in (file_name('dep'), file_name('anc')):      # import of them (if any) resolves
+                write_pb2(fdp, root)
         payload = dict(api=api, module=MODULE, service='Lr', service_snake='lr', pkg=P,
                        method=dict(name='Run', snake='run', req=P + '.Req', field=case['fld'], arg=case['arg'],
                                    grpc_path=f'/{P}.Lr/Run', http_verb='POST', http_path=f"/v1/{case['arg']}:run",
@@ -170,9 +182,9 @@ def compare_run(case, events):
     if bad:
         diffs.append('unexpected ' + '; '.join(f"{e['ev']}: {e.get('detail') or e.get('rpc')}" for e in bad[:3]))
     starts = [e for e in events if e['ev'] == 'start']
-    if len(starts) != case['starts'] or any((e['rpc'], e['chan'], e['name']) != ('Run', 1, case['arg']) for e in starts):
+    if len(starts) != case['starts'] or any((e['rpc'], e['chan'], e['name']) != ('Run', case['inst'], case['arg']) for e in starts):
         diffs.append(f"calls to the RPC {[(e['rpc'], e['chan'], e['name']) for e in starts]} != predicted "
-                     f"{case['starts']} x ('Run', 1, '{case['arg']}')")
+                     f"{case['starts']} x ('Run', {case['inst']}, '{case['arg']}')")
     polls = [dict(rpc=e['rpc'], chan=e['chan'], name=e['name']) for e in events if e['ev'] == 'poll']
     if polls != case['polls']:
         diffs.append(f"polls {polls} != predicted {case['polls']}")
@@ -202,7 +214,7 @@ def spec_mutants(chk):
     def one(m):
         return m, tlc.run('Lro', base.replace('Mutant = "none"', f'Mutant = "{m}"'), deadlock=False, workers=2, timeout=600)
     out = {}
-    with ThreadPoolExecutor(len(MUTANTS)) as ex:
+    with ThreadPoolExecutor(4) as ex:
         for m, r in ex.map(one, MUTANTS):
             out[m] = r.violated
             if r.ok or not (r.violated or '').startswith('Inv_'):
@@ -214,7 +226,7 @@ def main(chk, args):
     quick = chk.tier == 'quick'
     rnd = random.Random(chk.seed)
     # 1. the specification satisfies the property (and is live) within the bounds; its mutants do not
-    r = tlc.run('Lro', 'Lro.small.cfg' if quick else 'Lro.full.cfg', deadlock=False, timeout=1500)
+    r = tlc.run('Lro', 'Lro.small.cfg' if quick else 'Lro.full.cfg', deadlock=False, timeout=1500, workers=8)
     chk.add_tlc(r, 'Lro model check')
     spec_mutants(chk)
     # 2. spec -> code cases: resolution cases (x histories when thorough) and carrier cases x every history
@@ -238,7 +250,8 @@ def main(chk, args):
         corners, seen = [], set()
         for k in futs:
             c = groups[k][0]
-            tags = {('r', c['rsp']['kind'], c['rsp']['site']), ('m', c['mta']['kind'], c['mta']['site'])}
+            tags = {('r', c['rsp']['kind'], c['rsp']['site'], c['rsp']['encl']),
+                    ('m', c['mta']['kind'], c['mta']['site'], c['mta']['encl'])}
             if not tags <= seen:
                 seen |= tags
                 corners.append(k)
@@ -264,7 +277,7 @@ def main(chk, args):
                     if c['mode'] == 'asyncio' and tr == 'rest':
                         continue               # rest_asyncio is experimental: carrier cases only
                     rid = f'{i}:{tr}'
-                    runs.append(dict(id=rid, mode=c['mode'], transport=tr, form=c['form'], k=c['k'],
+                    runs.append(dict(id=rid, mode=c['mode'], transport=tr, inst=c['inst'], form=c['form'], k=c['k'],
                                      outcome=c['outcome'], value=c['value'], code=c['code']))
                     expect[(k, rid)] = (c, tr)
         jobs.append(dict(gid=k, case=c0, runs=runs, experimental=False))
@@ -277,18 +290,18 @@ def main(chk, args):
         seen_plain = set()
         for i, c in enumerate(cs):
             if cs[0]['gen'] == 'plain':
-                if (c['mode'], c['value']) in seen_plain:
+                if (c['mode'], c['value'], c['inst']) in seen_plain:
                     continue
-                seen_plain.add((c['mode'], c['value']))
+                seen_plain.add((c['mode'], c['value'], c['inst']))
             for tr in ('grpc', 'rest'):
                 rid = f'{i}:{tr}'
-                runs.append(dict(id=rid, mode=c['mode'], transport=tr, form=c['form'], k=c['k'],
+                runs.append(dict(id=rid, mode=c['mode'], transport=tr, inst=c['inst'], form=c['form'], k=c['k'],
                                  outcome=c['outcome'], value=c['value'], code=c['code']))
                 expect[('carrier:' + k, rid)] = (c, tr)
         jobs.append(dict(gid='carrier:' + k, case=cs[0], runs=runs, experimental=True))
     # 3. run the real generator and the emitted libraries
     jobs.sort(key=lambda j: -len(j['runs']))
-    with ProcessPoolExecutor(14, initializer=_init_worker) as ex:
+    with ProcessPoolExecutor(8, initializer=_init_worker) as ex:
         observations = list(ex.map(run_group, jobs, chunksize=1))
     # 4. compare (spec -> code) and collect traces (code -> spec)
     traces, tmeta = [], []
@@ -311,7 +324,7 @@ def main(chk, args):
         cdict = dict(ann=c0['ann'], out=c0['out'], rsp=c0['rsp'], mta=c0['mta'], fld=c0['fld'], form=c0['form'])
         if not job['runs'] or obs['gen'] == 'fail':
             traces.append(dict(c=cdict, h=dict(k=c0['k'], outcome=c0['outcome'], value=c0['value'], code=c0['code']),
-                               mode=c0['mode'], events=[g]))
+                               mode=c0['mode'], inst=c0['inst'], events=[g]))
             tmeta.append((gkey, c0, obs))
             continue
         versions = obs.get('versions') or versions
@@ -327,7 +340,7 @@ def main(chk, args):
                                                         events=run['events'], error=run.get('error')))
             traces.append(dict(c=dict(cdict, form=c['form']),
                                h=dict(k=c['k'], outcome=c['outcome'], value=c['value'], code=c['code']),
-                               mode=c['mode'], events=[g] + [ev(**e) for e in run['events']]))
+                               mode=c['mode'], inst=c['inst'], events=[g] + [ev(**e) for e in run['events']]))
             tmeta.append((rkey, c, run))
     # 5. code -> spec: batched trace validation
     accepted, rejected, runs_ = tlc.validate_all('LroTrace', 'LroTrace.cfg', traces, timeout=1500, max_rejects=8)
@@ -351,9 +364,11 @@ def main(chk, args):
     chk.assumptions += [
         'loopback gRPC / HTTP servers; replies built with google.longrunning.operations_pb2 and the INPUT descriptors',
         'virtual time: the `time` / `asyncio.sleep` names of google.api_core.retry are replaced; polling intervals are not compared',
-        'same channel (grpc) = every call seen by the server is accounted for by the log of the ONE recorded channel '
-        'handed to the transport (transport host also points at the loopback server, so a fresh channel would be seen); '
-        'same channel (rest) = the request reached the host the transport was given',
+        'two client instances per (mode, transport) live in one driver process, each on its own recorded channel / REST '
+        'transport to its own loopback server; channel of a call (grpc) = i iff it reached server i and is accounted for '
+        'by the log of the recorded channel of instance i (transport host also points at server i, so a fresh channel '
+        'would be seen as channel 0); (rest) = i iff it reached HTTP server i with that Host',
+        'resolution cases run through instance 1; carrier cases through instance 1 and 2 (interleaved in one process)',
         'asyncio x rest uses the experimental rest_asyncio transport (rest_async_io_enabled) and is exercised for the '
         'carrier cases only; all other cases run sync/grpc, sync/rest, asyncio/grpc',
         'an operation error "surfaces" = result() raises a GoogleAPICallError carrying the operation\'s status code; '
